@@ -50,7 +50,9 @@ def build_files(spec, carriers, cpu_lists, order=None, only_cpu0=False):
         cpu = -1 if k >= len(l["cpus"]) else k
         if only_cpu0 and k > 0:
             cpu = -1
-        ev = obs.enc("OHx", 1000 + k, i32(cpu, t) + i64(0)) + obs.enc("OHe", 2000 + k)
+        # (no two streams share a clock value: events of different streams with equal clocks may be replayed in either order)
+        kk = k + 10 * spec.index(l)
+        ev = obs.enc("OHx", 1000 + kk, i32(cpu, t) + i64(0)) + obs.enc("OHe", 2000 + kk)
         out.append((obs.relpath(l["name"], p["pid"], t), m, obs.HDR + ev))
     if order is not None:
         out = [out[i] for i in order]
@@ -144,6 +146,15 @@ def run(prop, tier):
                     cl[(l["name"], l["procs"][1]["threads"][1])] = [l["cpus"][1]]
                     cl[(l["name"], l["procs"][0]["threads"][1])] = [l["cpus"][0]]
                 variants.append((ci, "order+dist:%s" % pm, build_files(spec, c2, cl, order=pm)))
+                # the emulator visits the streams in the order of their paths: to really permute the enumeration, the stream
+                # directories get names that say nothing (loom, process and thread are what the metadata says), flat or nested
+                for kind in ("flat", "deep"):
+                    f0 = build_files(spec, carriers0, cpus0) if kind == "flat" else build_files(spec, c2, cl)
+                    f1 = []
+                    for pos, k in enumerate(pm):
+                        rel, m, d = f0[k]
+                        f1.append((("s%02d" % pos) if kind == "flat" else ("part%d/x/s%02d" % (pos % 2, pos)), m, d))
+                    variants.append((ci, "layout-%s:%s" % (kind, pm), f1))
 
         def one(v):
             ci, label, files = v
